@@ -23,7 +23,7 @@ EXTENDS Naturals, Integers, Sequences, FiniteSets, TLC, Json
 
 CONSTANTS MaxNodes,
           SplitLevels,     \* values of files.split-level explored
-          Templates,       \* subset of {"default", "title", "single"}
+          Templates,       \* subset of {"default", "title", "plain", "single"}; plain = `index sect$num(4)`: names without brackets, the last one is the wildcard
           MaxRefs,
           LabKinds,        \* subset of {"none", "own", "index", "sect1"}: no label / a label of its own / the label "index" / the label "sect0001"
           RefKinds         \* subset of {"sec", "eq"}: references to labelled units / to the numbered equation every unit carries
@@ -95,7 +95,7 @@ Assign(os, num, issued, acc) ==
     ELSE LET i == Head(os) IN
          IF i = 0 THEN Assign(Tail(os), num, issued \cup {IF tmpl = "single" THEN <<"only">> ELSE <<"index">>},
                               acc @@ (0 :> IF tmpl = "single" THEN <<"only">> ELSE <<"index">>))
-         ELSE LET first == IF tmpl = "default" THEN LabelName(i) ELSE <<"title", nodes[i].title>>
+         ELSE LET first == IF tmpl = "default" THEN LabelName(i) ELSE IF tmpl = "plain" THEN <<>> ELSE <<"title", nodes[i].title>>
                   n == NextFree(num, issued)          \* a numbered candidate that is taken is skipped, the counter moves on
               IN IF first # <<>> /\ first \notin issued
                  THEN Assign(Tail(os), num, issued \cup {first}, acc @@ (i :> first))
